@@ -650,6 +650,7 @@ func runC18(c *ctx) {
 		if r.chance(40) {
 			registerAt = 1 + r.intn(nUpd)
 		}
+		lateVanish := registerAt >= 2 && r.chance(50)
 		installAt := registerAt + r.intn(nUpd-registerAt+1) // the server starts (installs its updater) at or after creation
 		var lo *limit.Option
 		upd := &recUpdater{}
@@ -675,11 +676,30 @@ func runC18(c *ctx) {
 			// one LDS update: the inbound listener present or not
 			var anys []*anypb.Any
 			var cj interface{}
-			if r.chance(80) {
+			// a limiter that is created late often finds this history behind it: a limit in force (two updates before), then an
+			// accepted update WITHOUT the inbound listener (the last one before its creation) - it starts unlimited
+			vanished := lateVanish && registerAt >= 2 && u == registerAt-1
+			limited := lateVanish && registerAt >= 2 && u == registerAt-2
+			if vanished {
+				c.count("inbound-vanishes-before-late-limiter", 1)
+			}
+			if !vanished && (limited || r.chance(80)) {
 				var chains []gChain
 				nc := r.intn(4)
 				ports := []int{0, 8080, 9090, 7070}
 				r2 := r.fork()
+				if limited {
+					chains = append(chains, gChain{Port: port, Kind: "inline", Bucket: 100})
+					for pi, p := range ports {
+						if p == port {
+							ports = append(ports[:pi], ports[pi+1:]...)
+							break
+						}
+					}
+					if nc > 2 {
+						nc = 2
+					}
+				}
 				for k := 0; k < nc; k++ {
 					pi := r2.intn(len(ports))
 					ch := gChain{Port: ports[pi], Kind: []string{"inline", "inline", "rds", "none"}[r.intn(4)]}
